@@ -292,7 +292,7 @@ func smallHistory(c *Config) []commitSpec {
 func attrStreams(c *Config) {
 	r := c.Rng
 	// same-named items
-	for i := c.Count(600, 16000); i > 0; i-- {
+	for i := c.Count(700, 16000); i > 0; i-- {
 		var its []itemSpec
 		if r.Intn(3) == 0 {
 			its = richPipeline(c, 2+r.Intn(5), true)
@@ -305,7 +305,7 @@ func attrStreams(c *Config) {
 		emit(c, caseIn{Kind: "same", Dist: d, Items: its, Inj: richInjection(c, its, len(cs), d), Commits: cs, PA: r.Intn(5) == 0})
 	}
 	// the other attributes
-	for i := c.Count(600, 16000); i > 0; i-- {
+	for i := c.Count(700, 16000); i > 0; i-- {
 		n := []int{1, 1, 2, 2, 3, 4, 5, 6, 8, 10, 12}[r.Intn(11)]
 		its := shuffled(c, richPipeline(c, n, r.Intn(4) == 0))
 		cs := smallHistory(c)
